@@ -39,6 +39,26 @@ pub async fn lib_compress(source: Arc<Vec<u8>>, spec: &LibCompressSpec) -> Resul
     Ok(out)
 }
 
+/// Same, but the archive is written through a buffering writer handed over BY VALUE
+/// (`BufWriter<tokio::fs::File>`): whatever create_archive does not flush is lost.
+pub async fn lib_compress_to_file(source: Arc<Vec<u8>>, spec: &LibCompressSpec, path: &std::path::Path) -> Result<(), String> {
+    let opts = bitar::api::compress::CreateArchiveOptions {
+        chunker_config: gen::to_bitar_config(&spec.cfg),
+        num_chunk_buffers: spec.buffered,
+        chunk_hash_length: spec.hash_len,
+        temporary_file_override: None,
+        compression: spec.comp.to_bitar(),
+        metadata: spec.metadata.iter().cloned().collect::<BTreeMap<_, _>>(),
+    };
+    let input = FragSource::new(source, spec.frag.clone(), spec.pend.clone());
+    let file = tokio::fs::File::create(path).await.map_err(|e| format!("create: {}", e))?;
+    let out = tokio::io::BufWriter::new(file);
+    bitar::api::compress::create_archive(input, out, &opts)
+        .await
+        .map_err(|e| format!("create_archive: {:?}", e))?;
+    Ok(())
+}
+
 /// Values reported by the reader's accessors.
 #[derive(Clone, Debug, PartialEq, Eq)]
 pub struct Accessors {
